@@ -440,3 +440,6 @@ func cpuNanos() int64 {
 	}
 	return ru.Utime.Nano() + ru.Stime.Nano()
 }
+
+// CPUNanos is the CPU time (user+system) consumed by this process so far.
+func CPUNanos() int64 { return cpuNanos() }
